@@ -251,3 +251,35 @@ def loop_roles(modname, qualname, ordinal=0):
         raise LookupError(f"loop contract does not apply: {modname}.{qualname} has no loop number {ordinal} (re-annotation needed)")
     lp = loops[ordinal]
     return node, lp, returned_names(node), loop_target_names(lp), updated_names(lp), carried_names(lp)
+
+
+def constant_slices(modname, node, varname="line"):
+    """Column ranges (lo, hi) a function cuts out of the string `varname`: `line[a:b]`, `line[k]`, and `line[NAME]` where
+    NAME is a module-level constant `slice(a, b)` or an integer.  Returns (set of ranges, number of subscripts that could
+    not be resolved to constants)."""
+    tree, _ = module_ast(modname)
+    consts = {}
+    for st in tree.body:
+        if isinstance(st, (ast.Assign, ast.AnnAssign)):
+            tgt = st.targets[0] if isinstance(st, ast.Assign) and len(st.targets) == 1 else getattr(st, "target", None)
+            val = st.value
+            if isinstance(tgt, ast.Name) and val is not None:
+                if isinstance(val, ast.Call) and isinstance(val.func, ast.Name) and val.func.id == "slice" and 1 <= len(val.args) <= 2 and all(isinstance(a, ast.Constant) and (a.value is None or isinstance(a.value, int)) for a in val.args):
+                    lo, hi = (0, val.args[0].value) if len(val.args) == 1 else (val.args[0].value or 0, val.args[1].value)
+                    if hi is not None:
+                        consts[tgt.id] = (lo, hi)
+                elif isinstance(val, ast.Constant) and isinstance(val.value, int) and not isinstance(val.value, bool):
+                    consts[tgt.id] = (val.value, val.value + 1)
+    out, unresolved = set(), 0
+    for n in ast.walk(node):
+        if isinstance(n, ast.Subscript) and isinstance(n.value, ast.Name) and n.value.id == varname:
+            s = n.slice
+            if isinstance(s, ast.Slice) and s.step is None and (s.lower is None or isinstance(s.lower, ast.Constant)) and isinstance(s.upper, ast.Constant):
+                out.add((0 if s.lower is None else s.lower.value, s.upper.value))
+            elif isinstance(s, ast.Constant) and isinstance(s.value, int):
+                out.add((s.value, s.value + 1))
+            elif isinstance(s, ast.Name) and s.id in consts:
+                out.add(consts[s.id])
+            else:
+                unresolved += 1
+    return out, unresolved
